@@ -70,6 +70,16 @@ class Gen:
         r = self.r
         k = r.random()
         sign = r.choice(["", "-"])
+        if r.random() < 0.06:
+            # exactly at the longest literal a document may carry (63 characters) and just below
+            n = r.choice([60, 61, 62, 63, 63, 63]) - len(sign)
+            form = r.randrange(4)
+            d = lambda m: "".join(r.choice("0123456789") for _ in range(m))
+            if form == 0: lit = r.choice("123456789") + d(n - 1)
+            elif form == 1: lit = r.choice("123456789") + "." + d(n - 2)
+            elif form == 2: lit = "0." + d(n - 2 - 4) + "e-" + r.choice(["10", "99"])
+            else: lit = r.choice("123456789") + d(n - 1 - 3) + "e" + r.choice(["10", "20"])
+            return sign + lit
         if k < 0.25:
             return sign + "%d.%s" % (r.randrange(1000), "".join(r.choice("0123456789") for _ in range(r.randrange(1, 8))))
         if k < 0.5:
